@@ -19,6 +19,7 @@ type connEvent struct {
 }
 
 type memConn struct {
+	drainPerWrite int // > 0: a Write of more than this many bytes gets this many out, then blocks until the write deadline (slow peer)
 	mu   sync.Mutex
 	cond *sync.Cond
 
@@ -161,6 +162,21 @@ func (c *memConn) Write(b []byte) (int, error) {
 		// as a real net.Conn: an expired write deadline fails the call at once
 		c.logf("write-timeout", nil, "")
 		return 0, timeoutError{}
+	}
+	if c.drainPerWrite > 0 && len(b) > c.drainPerWrite && !c.writeDL.IsZero() {
+		// a slowly draining peer: this call gets rid of drainPerWrite bytes, then the send buffer is full until the write
+		// deadline passes - a real net.Conn returns the bytes written so far together with the timeout
+		n := c.drainPerWrite
+		c.out = append(c.out, b[:n]...)
+		c.logf("write", b[:n], "")
+		for !c.localClosed && time.Now().Before(c.writeDL) {
+			d := time.Until(c.writeDL)
+			t := time.AfterFunc(d, func() { c.mu.Lock(); c.cond.Broadcast(); c.mu.Unlock() })
+			c.cond.Wait()
+			t.Stop()
+		}
+		c.logf("write-timeout", nil, "")
+		return n, timeoutError{}
 	}
 	c.out = append(c.out, b...)
 	c.logf("write", b, "")
